@@ -37,11 +37,12 @@ def weighted_sum_exp(c, x):
         raise RuntimeError('Incompatible arguments.')
     x = x.ravel()
     c = c.ravel()
-    kvs = []
+    d = dict()
     for i in range(x.size):
         if c[i] != 0:
-            kvs.append((Exponential(x[i]), c[i]))
-    d = dict(kvs)
+            atom = Exponential(x[i])
+            # atoms with equal arguments are equal as dict keys; add their coefficients.
+            d[atom] = d.get(atom, 0) + c[i]
     se = ScalarExpression(d, 0, verify=False)
     expr = se.as_expr()
     return expr
